@@ -48,7 +48,8 @@ theorem cp_blk (s : St) (b : Blk) (hb : s.v.blk = some b) (src dst n : Nat)
     untouched -/
 theorem remove_spec (X : Ctx) (s : St) (es : List Elem) (i : Nat) (h : Abs X s.v es) (hi : i < es.length) :
     ∃ v', Vec.remove X i s = (.ok es[i], { s with v := v' }) ∧ Abs X v' (es.eraseIdx i) ∧
-      v'.blk.map (·.bid) = s.v.blk.map (·.bid) ∧ v'.cap = s.v.cap := by
+      v'.blk.map (·.bid) = s.v.blk.map (·.bid) ∧ v'.cap = s.v.cap ∧ v'.align = s.v.align ∧
+      v'.isDefault = s.v.isDefault ∧ v'.blk.map (·.lay) = s.v.blk.map (·.lay) := by
   have hL : (hsOf s.v s.sys.allocIdx).L = es.length := h.len_eq
   have hd : s.v.isDefault = false := by
     cases hd : s.v.isDefault
@@ -69,7 +70,7 @@ theorem remove_spec (X : Ctx) (s : St) (es : List Elem) (i : Nat) (h : Abs X s.v
   rw [hal] at h4
   let s1 : St := { s with v := { s.v with blk := some { b with slots := copySlots b.slots (i + 1) i (es.length - i - 1) } } }
   have h5 := lift_set_len X (es.length - 1) s1 hd
-  refine ⟨{ s.v with blk := some { b with slots := copySlots b.slots (i + 1) i (es.length - i - 1) }, len := es.length - 1 }, ?_, ?_, ?_, rfl⟩
+  refine ⟨{ s.v with blk := some { b with slots := copySlots b.slots (i + 1) i (es.length - i - 1) }, len := es.length - 1 }, ?_, ?_, ?_, rfl, rfl, rfl, by simp [hb]⟩
   · unfold Vec.remove
     simp only [VM.bind_run, h1, h2, h3, h4, VM.pure_run]
     rw [h5]
@@ -160,7 +161,8 @@ theorem insert_tail (X : Ctx) (s : St) (es : List Elem) (idx : Nat) (e : Elem) (
         VM.cp p idx (idx + 1) (es.length - idx)
         VM.wr p idx e
         VM.lift X (set_len X.env (es.length + 1)) : VM Unit) s = (.ok (), { s with v := v' }) ∧
-      Abs X v' (es.take idx ++ [e] ++ es.drop idx) ∧ v'.cap = s.v.cap ∧ v'.isDefault = false := by
+      Abs X v' (es.take idx ++ [e] ++ es.drop idx) ∧ v'.cap = s.v.cap ∧ v'.isDefault = false ∧
+      v'.align = s.v.align ∧ v'.blk.map (fun b => (b.bid, b.lay)) = s.v.blk.map (fun b => (b.bid, b.lay)) := by
   obtain ⟨b, hb, hl, hs, hlc, hel, hinit⟩ := h.alloc hd
   have hal : b.lay.align = s.v.align := (make_layout_honest _ _ _ _ hl).2.1
   have hcapb : s.v.cap ≤ b.slots.length := by rw [hs]; exact physSlots_ge X.env _ _ _ hl h.elem_pos
@@ -181,7 +183,7 @@ theorem insert_tail (X : Ctx) (s : St) (es : List Elem) (idx : Nat) (e : Elem) (
   have h5 := lift_set_len X (es.length + 1)
     { s with v := { s.v with blk := some { b with slots :=
         (copySlots b.slots idx (idx + 1) (es.length - idx)).set idx (some e) } } } hd
-  refine ⟨{ s.v with len := es.length + 1, blk := some { b with slots := (copySlots b.slots idx (idx + 1) (es.length - idx)).set idx (some e) } }, ?_, ?_, rfl, hd⟩
+  refine ⟨{ s.v with len := es.length + 1, blk := some { b with slots := (copySlots b.slots idx (idx + 1) (es.length - idx)).set idx (some e) } }, ?_, ?_, rfl, hd, rfl, by simp [hb]⟩
   · simp only [VM.bind_run, h1, h2, h3, h4, h5]
   · refine ⟨h.elem_pos, fun hx => by simp [hd] at hx, fun _ => ⟨_, rfl, hl, ?_, ?_, ?_, ?_⟩⟩
     · simp only [List.length_set]; rw [hlen1]; exact hs
@@ -317,7 +319,9 @@ theorem wr_blk (s : St) (b : Blk) (hb : s.v.blk = some b) (i : Nat) (hi : i < b.
 /-- `swap_remove(i)` for `i < len`: returns element `i`; the last element takes its place -/
 theorem swap_remove_spec (X : Ctx) (s : St) (es : List Elem) (i : Nat) (h : Abs X s.v es) (hi : i < es.length) :
     ∃ v', Vec.swap_remove X i s = (.ok es[i], { s with v := v' }) ∧
-      Abs X v' ((es.set i (es[es.length - 1]'(by omega))).take (es.length - 1)) ∧ v'.cap = s.v.cap := by
+      Abs X v' ((es.set i (es[es.length - 1]'(by omega))).take (es.length - 1)) ∧ v'.cap = s.v.cap ∧
+      v'.align = s.v.align ∧ v'.isDefault = s.v.isDefault ∧
+      v'.blk.map (fun b => (b.bid, b.lay)) = s.v.blk.map (fun b => (b.bid, b.lay)) := by
   have hL : (hsOf s.v s.sys.allocIdx).L = es.length := h.len_eq
   have hd : s.v.isDefault = false := by
     cases hd : s.v.isDefault
@@ -340,7 +344,7 @@ theorem swap_remove_spec (X : Ctx) (s : St) (es : List Elem) (i : Nat) (h : Abs 
     rw [hinit i (by omega)]; simp [List.getElem?_eq_getElem hi])
   have h7 := wr_blk { s with v := { s.v with len := s.v.len - 1 } } b hb i (by omega) (es[es.length - 1])
   rw [hal] at h6 h7
-  refine ⟨{ s.v with len := s.v.len - 1, blk := some { b with slots := b.slots.set i (some es[es.length - 1]) } }, ?_, ?_, rfl⟩
+  refine ⟨{ s.v with len := s.v.len - 1, blk := some { b with slots := b.slots.set i (some es[es.length - 1]) } }, ?_, ?_, rfl, rfl, rfl, by simp [hb]⟩
   · unfold Vec.swap_remove
     simp only [VM.bind_run, h1, h2, h3, h4, h5, h6, h7, VM.pure_run]
   · refine ⟨h.elem_pos, fun hx => by simp [hd] at hx, fun _ => ⟨_, rfl, hl, by simp [hs], by simp; omega, by simp; omega, ?_⟩⟩
